@@ -109,8 +109,11 @@ Qed.
 (* ------------------------------------------------------------------------------------------------ *)
 (* views of abs = abs1 of slices *)
 
+Definition hd_abs1 (l : list value) : option mono :=
+  match l with [] => None | e :: _ => Some (abs1 e) end.
+
 Lemma var_views_map_abs1 (ss : list value) :
-  var_views (map abs1 ss) = map (fun o => option_map abs1 o) (match ss with [] => [None] | _ => map Some ss end).
+  var_views (map abs1 ss) = map hd_abs1 (opt_slices ss).
 Proof. destruct ss; simpl; [reflexivity|]. f_equal. rewrite !map_map. reflexivity. Qed.
 
 Theorem views_abs : forall v, views (abs v) = map abs1 (slices v).
@@ -119,9 +122,8 @@ Proof.
   - (* VColl *)
     rewrite flat_map_map.
     rewrite (flat_map_ext_Forall (fun x => views (abs x)) (fun x => map abs1 (slices x)) vs H).
-    rewrite <- map_flat_map.
-    unfold opt_slices. destruct (flat_map slices vs) as [|s0 ss]; simpl; [reflexivity|].
-    f_equal. rewrite flat_map_singleton. rewrite !map_map. reflexivity.
+    rewrite <- map_flat_map. rewrite var_views_map_abs1.
+    rewrite flat_map_map. rewrite flat_map_singleton. rewrite map_map. reflexivity.
   - (* VTuple *)
     rewrite map_map.
     rewrite (map_ext_Forall (fun x => views (abs x)) (fun x => map abs1 (slices x)) vs H).
@@ -130,14 +132,1069 @@ Proof.
     rewrite !flat_map_map.
     rewrite (flat_map_ext_Forall (fun x => views (abs x)) (fun x => map abs1 (slices x)) ks H).
     rewrite (flat_map_ext_Forall (fun x => views (abs x)) (fun x => map abs1 (slices x)) vs H0).
-    rewrite <- !map_flat_map.
-    unfold opt_slices.
-    destruct (flat_map slices ks) as [|k0 kk]; destruct (flat_map slices vs) as [|v0 vv]; simpl; try reflexivity.
-    + f_equal. rewrite !map_map. reflexivity.
-    + f_equal. rewrite !flat_map_map. simpl.
-      rewrite map_flat_map. apply flat_map_ext_Forall. apply Forall_forall. intros; reflexivity.
-    + f_equal.
-      * f_equal. rewrite !map_map. reflexivity.
-      * rewrite !flat_map_map. rewrite map_flat_map. apply flat_map_ext_Forall. apply Forall_forall.
-        intros x _. simpl. f_equal. rewrite !map_map. reflexivity.
+    rewrite <- !map_flat_map. rewrite !var_views_map_abs1.
+    rewrite flat_map_map. rewrite map_flat_map.
+    apply flat_map_ext_Forall. apply Forall_forall. intros k1 _.
+    rewrite !map_map. reflexivity.
 Qed.
+
+(* ------------------------------------------------------------------------------------------------ *)
+(* slices are slices, and stay well-formed *)
+
+Lemma Forall_flat_map {A B} (Q : B -> Prop) (f : A -> list B) l :
+  Forall (fun x => Forall Q (f x)) l -> Forall Q (flat_map f l).
+Proof. induction 1; simpl; [constructor|]. apply Forall_app. split; assumption. Qed.
+
+Lemma Forall_list_prod {A} (Q : A -> Prop) (ls : list (list A)) :
+  Forall (Forall Q) ls -> Forall (Forall Q) (list_prod ls).
+Proof.
+  induction 1 as [|l ls Hl Hls IH]; simpl; [repeat constructor|].
+  apply Forall_flat_map. apply Forall_forall. intros x Hx.
+  apply Forall_forall. intros y Hy. apply in_map_iff in Hy as [z [<- Hz]].
+  constructor.
+  - rewrite Forall_forall in Hl. apply Hl; assumption.
+  - rewrite Forall_forall in IH. apply IH; assumption.
+Qed.
+
+Lemma Forall_opt_slices (Q : value -> Prop) ss :
+  Forall Q ss -> Forall (fun l => Forall Q l /\ length l <= 1) (opt_slices ss).
+Proof.
+  intros H. unfold opt_slices. destruct ss as [|s0 ss']; [repeat constructor|].
+  apply Forall_forall. intros l Hl. apply in_map_iff in Hl as [s [<- Hs]].
+  split; [|simpl; lia]. constructor; [|constructor]. rewrite Forall_forall in H. apply H; assumption.
+Qed.
+
+Lemma slices_good (Q : value -> bool)
+  (QColl : forall k l, Q (VColl k l) = forallb Q l)
+  (QTuple : forall l, Q (VTuple l) = forallb Q l)
+  (QDict : forall l1 l2, Q (VDict l1 l2) = forallb Q l1 && forallb Q l2) :
+  forall v, Q v = true -> Forall (fun s => Q s = true /\ is_slice s = true) (slices v).
+Proof.
+  induction v using value_ind'; simpl; intros Hq; try (repeat constructor; assumption).
+  - rewrite QColl in Hq. apply forallb_Forall in Hq.
+    assert (HS : Forall (fun s => Q s = true /\ is_slice s = true) (flat_map slices vs)).
+    { apply Forall_flat_map. rewrite Forall_forall in *. intros x Hx. apply H; auto. }
+    apply Forall_opt_slices in HS. apply Forall_forall. intros s Hs.
+    apply in_map_iff in Hs as [l [<- Hl]]. rewrite Forall_forall in HS. destruct (HS l Hl) as [Hf Hlen].
+    rewrite QColl. simpl. split.
+    + apply forallb_Forall. eapply Forall_impl; [|exact Hf]. simpl. tauto.
+    + apply andb_true_iff. split; [apply Nat.leb_le; assumption|].
+      apply forallb_Forall. eapply Forall_impl; [|exact Hf]. simpl. tauto.
+  - rewrite QTuple in Hq. apply forallb_Forall in Hq.
+    assert (HS : Forall (Forall (fun s => Q s = true /\ is_slice s = true)) (map slices vs)).
+    { apply Forall_forall. intros l Hl. apply in_map_iff in Hl as [x [<- Hx]].
+      rewrite Forall_forall in H, Hq. apply H; auto. }
+    apply Forall_list_prod in HS. apply Forall_forall. intros s Hs.
+    apply in_map_iff in Hs as [l [<- Hl]]. rewrite Forall_forall in HS. specialize (HS l Hl).
+    rewrite QTuple. simpl. split; apply forallb_Forall; eapply Forall_impl; try exact HS; simpl; tauto.
+  - rewrite QDict in Hq. apply andb_true_iff in Hq as [Hq1 Hq2].
+    apply forallb_Forall in Hq1, Hq2.
+    assert (HS1 : Forall (fun s => Q s = true /\ is_slice s = true) (flat_map slices ks)).
+    { apply Forall_flat_map. rewrite Forall_forall in *. intros x Hx. apply H; auto. }
+    assert (HS2 : Forall (fun s => Q s = true /\ is_slice s = true) (flat_map slices vs)).
+    { apply Forall_flat_map. rewrite Forall_forall in *. intros x Hx. apply H0; auto. }
+    apply Forall_opt_slices in HS1, HS2.
+    apply Forall_flat_map. apply Forall_forall. intros l1 Hl1.
+    apply Forall_forall. intros s Hs. apply in_map_iff in Hs as [l2 [<- Hl2]].
+    rewrite Forall_forall in HS1, HS2. destruct (HS1 l1 Hl1) as [Hf1 Hlen1]. destruct (HS2 l2 Hl2) as [Hf2 Hlen2].
+    rewrite QDict. simpl. split.
+    + apply andb_true_iff. split; apply forallb_Forall; [eapply Forall_impl; [|exact Hf1]|eapply Forall_impl; [|exact Hf2]]; simpl; tauto.
+    + repeat (apply andb_true_iff; split); try (apply Nat.leb_le; assumption);
+        apply forallb_Forall; [eapply Forall_impl; [|exact Hf1]|eapply Forall_impl; [|exact Hf2]]; simpl; tauto.
+Qed.
+
+Lemma slices_wf tb v : wf_val tb v = true ->
+  Forall (fun s => wf_val tb s = true /\ is_slice s = true) (slices v).
+Proof. apply (slices_good (wf_val tb)); reflexivity. Qed.
+
+(* ------------------------------------------------------------------------------------------------ *)
+(* decidable equalities *)
+
+Lemma bname_beq_eq a b : bname_beq a b = true <-> a = b.
+Proof. split; [apply internal_bname_dec_bl | apply internal_bname_dec_lb]. Qed.
+
+Lemma battr_beq_eq a b : battr_beq a b = true <-> a = b.
+Proof. split; [apply internal_battr_dec_bl | apply internal_battr_dec_lb]. Qed.
+
+Lemma bname_beq_refl a : bname_beq a a = true.
+Proof. apply bname_beq_eq; reflexivity. Qed.
+
+Lemma cid_eqb_eq x y : cid_eqb x y = true <-> x = y.
+Proof.
+  destruct x, y; simpl; split; intro H; try discriminate; try congruence.
+  - apply bname_beq_eq in H. congruence.
+  - apply bname_beq_eq. congruence.
+  - apply Nat.eqb_eq in H. congruence.
+  - apply Nat.eqb_eq. congruence.
+Qed.
+
+Lemma cid_eqb_refl x : cid_eqb x x = true.
+Proof. apply cid_eqb_eq; reflexivity. Qed.
+
+Lemma cid_eqb_neq x y : x <> y -> cid_eqb x y = false.
+Proof. intro H. destruct (cid_eqb x y) eqn:E; [apply cid_eqb_eq in E; contradiction | reflexivity]. Qed.
+
+Lemma attr_eqb_eq x y : attr_eqb x y = true <-> x = y.
+Proof.
+  destruct x, y; simpl; split; intro H; try discriminate; try congruence.
+  - apply battr_beq_eq in H. congruence.
+  - apply battr_beq_eq. congruence.
+  - apply Nat.eqb_eq in H. congruence.
+  - apply Nat.eqb_eq. congruence.
+Qed.
+
+Lemma amem_In a l : amem a l = true <-> In a l.
+Proof.
+  unfold amem. rewrite existsb_exists. split.
+  - intros [x [Hx He]]. apply attr_eqb_eq in He. subst. assumption.
+  - intros H. exists a. split; [assumption | apply attr_eqb_eq; reflexivity].
+Qed.
+
+Lemma cmem_In c l : cmem c l = true <-> In c l.
+Proof.
+  unfold cmem. rewrite existsb_exists. split.
+  - intros [x [Hx He]]. apply cid_eqb_eq in He. subst. assumption.
+  - intros H. exists c. split; [assumption | apply cid_eqb_eq; reflexivity].
+Qed.
+
+Lemma nmem_In n l : nmem n l = true <-> In n l.
+Proof.
+  unfold nmem. rewrite existsb_exists. split.
+  - intros [x [Hx He]]. apply Nat.eqb_eq in He. subst. assumption.
+  - intros H. exists n. split; [assumption | apply Nat.eqb_refl].
+Qed.
+
+Lemma bmem_In b l : bmem b l = true <-> In b l.
+Proof.
+  unfold bmem. rewrite existsb_exists. split.
+  - intros [x [Hx He]]. apply bname_beq_eq in He. subst. assumption.
+  - intros H. exists b. split; [assumption | apply bname_beq_refl].
+Qed.
+
+Lemma parg_eqb_eq p q : parg_eqb p q = true -> p = q.
+Proof.
+  destruct p, q; simpl; intro H; try discriminate; try reflexivity.
+  - apply Nat.eqb_eq in H. congruence.
+  - apply cid_eqb_eq in H. congruence.
+Qed.
+
+Lemma forall2b_parg_eq l1 : forall l2, forall2b parg_eqb l1 l2 = true -> l1 = l2.
+Proof.
+  induction l1 as [|x l1 IH]; destruct l2 as [|y l2]; simpl; intro H; try discriminate; [reflexivity|].
+  apply andb_true_iff in H as [H1 H2]. apply parg_eqb_eq in H1. apply IH in H2. congruence.
+Qed.
+
+Lemma opm_eqb_eq x y : opm_eqb x y = true -> x = y.
+Proof.
+  destruct x, y; simpl; intro H; try discriminate; [|reflexivity].
+  apply forall2b_parg_eq in H. congruence.
+Qed.
+
+Lemma cset_eqb_cmem l1 l2 : cset_eqb l1 l2 = true -> forall c, cmem c l1 = cmem c l2.
+Proof.
+  unfold cset_eqb. intros H c. apply andb_true_iff in H as [H1 H2].
+  rewrite forallb_forall in H1, H2.
+  destruct (cmem c l1) eqn:E1; destruct (cmem c l2) eqn:E2; try reflexivity.
+  - apply cmem_In in E1. apply H1 in E1. congruence.
+  - apply cmem_In in E2. apply H2 in E2. congruence.
+Qed.
+
+(* ------------------------------------------------------------------------------------------------ *)
+(* what table_ok provides *)
+
+Record tok (tb : table) : Prop := {
+  tok_reach : forall c h, In c vclasses -> In h heads -> reach tb (CB c) (CB h) = reachF pytype_devs c h;
+  tok_mro_cb : forall c, In c vclasses -> forall e, In e (mro tb (CB c)) -> exists b, fst e = CB b;
+  tok_proto_base : forall h, In h heads -> is_protocol tb (CB h) = has_protocol_base tb (CB h);
+  tok_fallback : forall c h, In c vclasses -> In h heads -> reach tb (CB c) (CB h) = None ->
+                 is_protocol tb (CB h) = true -> protocol_match tb (inst0 (CB c)) (CB h) = false;
+  tok_attr_obj : forall h, In h heads -> is_protocol tb (CB h) = true ->
+                 exists a, In (AB a) (pattrs tb (CB h)) /\ amem (AB a) (attrs tb (CB B_object)) = false;
+  tok_attr_type : forall h, In h heads -> is_protocol tb (CB h) = true ->
+                 cmem (CB h) (bt_class_accept (t_b tb)) = false ->
+                 exists a, In (AB a) (pattrs tb (CB h)) /\ amem (AB a) (attrs tb (CB B_type)) = false;
+  tok_ab : forall c, In c (B_object :: vclasses) -> forall a, In a (attrs tb (CB c)) -> is_AB a = true;
+  tok_noniter : forall c, cmem c (bt_noniter_abcs (t_b tb)) =
+                          cmem c [CB B_t_Iterable; CB B_t_Sequence; CB B_t_Collection; CB B_t_Container];
+  tok_str : forall c, cmem c (bt_str_types (t_b tb)) = cmem c [CB B_str];
+  tok_accept : forall c, cmem c (bt_class_accept (t_b tb)) =
+                         cmem c [CB B_type; CB B_object; CB B_t_Callable; CB B_t_Hashable];
+  tok_ft : bt_function_type (t_b tb) = CB B_t_Callable;
+  tok_obj : mro tb (CB B_object) = [(CB B_object, [])];
+  tok_compat : forall x y, compat tb x y = true -> exists a b, x = CB a /\ y = CB b /\ a <> B_object;
+  tok_u : forall c k, In k (u_mro (uinfo_of tb c)) -> True
+}.
+
+Lemma existsb_AB_exists (f : attr -> bool) l :
+  existsb (fun a => is_AB a && f a) l = true -> exists a, In (AB a) l /\ f (AB a) = true.
+Proof.
+  intro H. apply existsb_exists in H as [x [Hx Hf]]. apply andb_true_iff in Hf as [Hab Hf].
+  destruct x as [a|n]; [|discriminate]. exists a. auto.
+Qed.
+
+Lemma table_ok_tok tb : table_ok tb = true -> tok tb.
+Proof.
+  unfold table_ok, btable_ok. intro H.
+  repeat rewrite andb_true_iff in H.
+  destruct H as [[[[[[[[[[[[[[H1 H2] H3] H4] H5] H6] H7] H8] H9] H10] H11] H12] H13] H14] Hu].
+  constructor.
+  - intros c h Hc Hh. rewrite forallb_forall in H1. specialize (H1 c Hc).
+    rewrite forallb_forall in H1. apply opm_eqb_eq. apply H1; assumption.
+  - intros c Hc e He. rewrite forallb_forall in H2. specialize (H2 c Hc).
+    rewrite forallb_forall in H2. specialize (H2 e He). destruct (fst e); [eauto|discriminate].
+  - intros h Hh. rewrite forallb_forall in H3. specialize (H3 h Hh). apply eqb_prop in H3. assumption.
+  - intros c h Hc Hh Hr Hp. rewrite forallb_forall in H4. specialize (H4 c Hc).
+    rewrite forallb_forall in H4. specialize (H4 h Hh). rewrite Hr, Hp in H4. simpl in H4.
+    apply negb_true_iff in H4. assumption.
+  - intros h Hh Hp. rewrite forallb_forall in H5. specialize (H5 h Hh). rewrite Hp in H5. simpl in H5.
+    apply existsb_AB_exists in H5 as [a [Ha Hf]]. exists a. split; [assumption|].
+    apply negb_true_iff in Hf. assumption.
+  - intros h Hh Hp Hacc. rewrite forallb_forall in H6. specialize (H6 h Hh). rewrite Hp, Hacc in H6. simpl in H6.
+    apply existsb_AB_exists in H6 as [a [Ha Hf]]. exists a. split; [assumption|].
+    apply negb_true_iff in Hf. assumption.
+  - intros c Hc a Ha. rewrite forallb_forall in H7. specialize (H7 c Hc). rewrite forallb_forall in H7. auto.
+  - apply cset_eqb_cmem; assumption.
+  - apply cset_eqb_cmem; assumption.
+  - apply cset_eqb_cmem; assumption.
+  - apply cid_eqb_eq; assumption.
+  - destruct (mro tb (CB B_object)) as [|[[[]|] [|]] [|]]; try discriminate. reflexivity.
+  - intros x y Hxy. unfold compat in Hxy. apply existsb_exists in Hxy as [p [Hp Hq]].
+    rewrite forallb_forall in H14. specialize (H14 p Hp).
+    apply andb_true_iff in Hq as [Hq1 Hq2]. apply cid_eqb_eq in Hq1, Hq2. subst.
+    destruct (fst p) as [a|]; [|discriminate]. destruct (snd p) as [b|]; [|discriminate].
+    exists a, b. repeat split; try reflexivity. intro E. subst. simpl in H14. discriminate.
+  - auto.
+Qed.
+
+(* ------------------------------------------------------------------------------------------------ *)
+(* the class table seen from a generated class *)
+
+Lemma instance_match_reach tb rec m t :
+  instance_match tb rec m t =
+  if negb (satisfies_noniterable_str tb (cls_of tb m) t) then false
+  else match reach tb (cls_of tb m) (head t) with
+       | Some pm => base_match rec m pm t
+       | None => if is_protocol tb (head t) then protocol_match tb m (head t)
+                 else has_protocol_base tb (head t)
+       end.
+Proof.
+  unfold instance_match, reach. destruct (negb _); [reflexivity|].
+  destruct (find_base tb (cls_of tb m) (head t)) as [[b pm]|]; reflexivity.
+Qed.
+
+Lemma compat_CU_l tb k h : tok tb -> compat tb (CU k) h = false.
+Proof.
+  intros T. destruct (compat tb (CU k) h) eqn:E; [|reflexivity].
+  apply (tok_compat tb T) in E as [a [b [E1 _]]]. discriminate.
+Qed.
+
+Lemma compat_CU_r tb x k : tok tb -> compat tb x (CU k) = false.
+Proof.
+  intros T. destruct (compat tb x (CU k)) eqn:E; [|reflexivity].
+  apply (tok_compat tb T) in E as [a [b [_ [E2 _]]]]. discriminate.
+Qed.
+
+Lemma compat_obj_l tb h : tok tb -> compat tb (CB B_object) h = false.
+Proof.
+  intros T. destruct (compat tb (CB B_object) h) eqn:E; [|reflexivity].
+  apply (tok_compat tb T) in E as [a [b [E1 [_ N]]]]. congruence.
+Qed.
+
+Lemma reach_user tb c h : tok tb ->
+  reach tb (CU c) h =
+  match h with
+  | CU p => if nmem p (u_mro (uinfo_of tb c)) then Some [] else None
+  | CB b => if bname_beq b B_object then Some [] else None
+  end.
+Proof.
+  intros T. unfold reach, find_base, mro.
+  induction (u_mro (uinfo_of tb c)) as [|k l IH]; cbn [map app find fst snd].
+  - rewrite (compat_obj_l tb h T), orb_false_r.
+    destruct h as [b|p]; cbn [cid_eqb]; [|reflexivity].
+    destruct (bname_beq b B_object) eqn:E.
+    + apply bname_beq_eq in E. subst. rewrite bname_beq_refl. reflexivity.
+    + destruct (bname_beq B_object b) eqn:E'; [|reflexivity].
+      apply bname_beq_eq in E'. subst. rewrite bname_beq_refl in E. discriminate.
+  - rewrite (compat_CU_l tb k h T), orb_false_r.
+    destruct h as [b|p]; cbn [cid_eqb].
+    + exact IH.
+    + cbn [nmem existsb]. rewrite (Nat.eqb_sym p k). destruct (Nat.eqb k p); cbn [orb]; [reflexivity|]. exact IH.
+Qed.
+
+Lemma reach_builtin_user tb c p : tok tb -> In c vclasses -> reach tb (CB c) (CU p) = None.
+Proof.
+  intros T Hc. unfold reach, find_base.
+  assert (H : forall e, In e (mro tb (CB c)) -> (cid_eqb (fst e) (CU p) || compat tb (fst e) (CU p)) = false).
+  { intros e He. destruct (tok_mro_cb tb T c Hc e He) as [b Hb]. rewrite Hb. simpl.
+    apply compat_CU_r; assumption. }
+  induction (mro tb (CB c)) as [|e l IH]; simpl; [reflexivity|].
+  rewrite (H e (or_introl eq_refl)). apply IH. intros e' He'. apply H. right; assumption.
+Qed.
+
+(* attributes *)
+Lemma amem_app a l1 l2 : amem a (l1 ++ l2) = amem a l1 || amem a l2.
+Proof. unfold amem. apply existsb_app. Qed.
+
+Lemma amem_map_AU n l : amem (AU n) (map AU l) = nmem n l.
+Proof. unfold amem, nmem. rewrite existsb_map. reflexivity. Qed.
+
+Lemma amem_AB_map_AU a l : amem (AB a) (map AU l) = false.
+Proof. unfold amem. rewrite existsb_map. simpl. induction l; simpl; auto. Qed.
+
+Lemma amem_AU_allAB n l : (forall a, In a l -> is_AB a = true) -> amem (AU n) l = false.
+Proof.
+  intros H. destruct (amem (AU n) l) eqn:E; [|reflexivity].
+  apply amem_In in E. apply H in E. discriminate.
+Qed.
+
+Definition implicit_iter (l : list attr) : list attr :=
+  if amem (AB A_getitem) l then AB A_iter :: l else l.
+
+Lemma amem_implicit_AU n l : amem (AU n) (implicit_iter l) = amem (AU n) l.
+Proof. unfold implicit_iter. destruct (amem (AB A_getitem) l); reflexivity. Qed.
+
+Lemma attrs_user tb c : tok tb ->
+  attrs tb (CU c) = implicit_iter (map AU (uattrs tb c) ++ own_attrs tb (CB B_object)).
+Proof.
+  intros T. unfold attrs, mro, implicit_iter.
+  rewrite flat_map_app. simpl. rewrite app_nil_r. rewrite flat_map_map. simpl.
+  unfold uattrs. rewrite map_flat_map. reflexivity.
+Qed.
+
+Lemma attrs_object tb : tok tb -> attrs tb (CB B_object) = implicit_iter (own_attrs tb (CB B_object)).
+Proof.
+  intros T. unfold attrs. rewrite (tok_obj tb T). simpl. rewrite app_nil_r. reflexivity.
+Qed.
+
+Lemma amem_implicit a l :
+  amem a (implicit_iter l) = (amem (AB A_getitem) l && attr_eqb a (AB A_iter)) || amem a l.
+Proof.
+  unfold implicit_iter. destruct (amem (AB A_getitem) l); cbn [andb orb]; [|reflexivity].
+  unfold amem. cbn [existsb]. reflexivity.
+Qed.
+
+Lemma amem_AB_attrs_user tb c a : tok tb ->
+  amem (AB a) (attrs tb (CU c)) = amem (AB a) (attrs tb (CB B_object)).
+Proof.
+  intros T. rewrite attrs_user, attrs_object by assumption.
+  rewrite !amem_implicit, !amem_app, !amem_AB_map_AU. reflexivity.
+Qed.
+
+Lemma amem_AU_attrs_user tb c n : tok tb -> amem (AU n) (attrs tb (CU c)) = nmem n (uattrs tb c).
+Proof.
+  intros T. rewrite attrs_user by assumption. rewrite amem_implicit_AU, amem_app, amem_map_AU.
+  assert (H : amem (AU n) (own_attrs tb (CB B_object)) = false).
+  { destruct (amem (AU n) (own_attrs tb (CB B_object))) eqn:E; [|reflexivity].
+    assert (E' : amem (AU n) (attrs tb (CB B_object)) = true).
+    { rewrite attrs_object by assumption. rewrite amem_implicit_AU. assumption. }
+    apply amem_In in E'. apply (tok_ab tb T B_object (or_introl eq_refl)) in E'. discriminate. }
+  rewrite H, orb_false_r. reflexivity.
+Qed.
+
+Lemma asubset_AU ps L :
+  (forall n, amem (AU n) L = false) -> asubset (map AU ps) L = nsubset ps [].
+Proof.
+  intros H. unfold asubset, nsubset. rewrite forallb_map.
+  apply forallb_ext_Forall. apply Forall_forall. intros n _. rewrite H. reflexivity.
+Qed.
+
+Lemma asubset_has_missing (P L : list attr) a : In a P -> amem a L = false -> asubset P L = false.
+Proof.
+  intros Hin Hm. unfold asubset. destruct (forallb (fun a0 => amem a0 L) P) eqn:E; [|reflexivity].
+  rewrite forallb_forall in E. rewrite (E a Hin) in Hm. discriminate.
+Qed.
+
+Lemma nsubset_nil ps : nsubset ps [] = match ps with [] => true | _ => false end.
+Proof. destruct ps; reflexivity. Qed.
+
+(* the protocol fall-back for a formal that is a generated class *)
+Definition structural (tb : table) (k : nat) (have : list nat) : bool :=
+  u_pbase (uinfo_of tb k) && nsubset (u_pattrs (uinfo_of tb k)) have.
+
+Lemma user_fallback tb m p have :
+  (forall n, amem (AU n) (attrs_of tb m) = nmem n have) ->
+  (if is_protocol tb (CU p) then protocol_match tb m (CU p) else has_protocol_base tb (CU p))
+  = structural tb p have.
+Proof.
+  intros H. unfold is_protocol, has_protocol_base, protocol_match, structural. simpl.
+  assert (S : asubset (map AU (u_pattrs (uinfo_of tb p))) (attrs_of tb m)
+              = nsubset (u_pattrs (uinfo_of tb p)) have).
+  { unfold asubset, nsubset. rewrite forallb_map. apply forallb_ext_Forall. apply Forall_forall.
+    intros n _. apply H. }
+  unfold pattrs. rewrite S.
+  destruct (u_pbase (uinfo_of tb p)); simpl; [|reflexivity].
+  destruct (u_pattrs (uinfo_of tb p)); reflexivity.
+Qed.
+
+(* ------------------------------------------------------------------------------------------------ *)
+(* builtin-instance values *)
+
+Definition bcls (s : value) : option bname :=
+  match s with
+  | VScalar sc => Some (scalar_cls sc)
+  | VColl k _ => Some (ckind_cls k)
+  | VTuple _ => Some B_tuple
+  | VDict _ _ => Some B_dict
+  | _ => None
+  end.
+
+Lemma bcls_vclasses s c : bcls s = Some c -> In c vclasses.
+Proof.
+  destruct s as [sc|k vs|vs|ks vs|n|k|m o st]; simpl; intro H; inversion H; subst; clear H.
+  - destruct sc; simpl; tauto.
+  - destruct k; simpl; tauto.
+  - simpl; tauto.
+  - simpl; tauto.
+Qed.
+
+Lemma bcls_cls_of tb s c : bcls s = Some c -> cls_of tb (abs1 s) = CB c /\ vclass s = CB c.
+Proof. destruct s; simpl; intro H; inversion H; subst; auto. Qed.
+
+Lemma bcls_attrs_of tb s c : bcls s = Some c -> attrs_of tb (abs1 s) = attrs tb (CB c).
+Proof. destruct s; simpl; intro H; inversion H; subst; auto. Qed.
+
+Definition all_bnames : list bname :=
+  [B_int; B_float; B_complex; B_bool; B_str; B_bytes; B_bytearray; B_memoryview; B_NoneType; B_object;
+   B_list; B_tuple; B_set; B_frozenset; B_dict; B_type;
+   B_t_Sequence; B_t_MutableSequence; B_t_Iterable; B_t_Collection; B_t_Container; B_t_Mapping;
+   B_t_MutableMapping; B_t_AbstractSet; B_t_MutableSet; B_t_Sized; B_t_Callable; B_t_Hashable;
+   B_t_Reversible; B_t_Iterator; B_t_Generic; B_t_Protocol; B_t_List; B_t_Dict; B_t_Set; B_t_FrozenSet;
+   B_t_Tuple; B_t_Type; B_t_SupportsInt; B_t_SupportsFloat; B_t_SupportsAbs; B_t_SupportsComplex;
+   B_t_SupportsIndex; B_t_SupportsRound; B_t_SupportsBytes].
+
+Lemma all_bnames_complete b : In b all_bnames.
+Proof. destruct b; simpl; tauto. Qed.
+
+(* every constant-instance parameter of the run-time table is str or int *)
+Definition pgood (p : parg) : bool :=
+  match p with
+  | PInst (CB B_str) | PInst (CB B_int) => true
+  | PInst _ => false
+  | _ => true
+  end.
+
+Lemma reachF_pgood_all :
+  forallb (fun c => forallb (fun h => match reachF pytype_devs c h with
+                                      | Some pm => forallb pgood pm
+                                      | None => true
+                                      end) all_bnames) all_bnames = true.
+Proof. vm_compute. reflexivity. Qed.
+
+Lemma reachF_pgood c h pm : reachF pytype_devs c h = Some pm -> forallb pgood pm = true.
+Proof.
+  intro H. pose proof reachF_pgood_all as A. rewrite forallb_forall in A.
+  specialize (A c (all_bnames_complete c)). rewrite forallb_forall in A.
+  specialize (A h (all_bnames_complete h)). rewrite H in A. exact A.
+Qed.
+
+(* a tuple reaches a parameterised head through its single parameter *)
+Lemma reachF_tuple_all :
+  forallb (fun h => match reachF pytype_devs B_tuple h with
+                    | Some pm => Nat.eqb (head_arity h) 0 || (Nat.eqb (head_arity h) 1 &&
+                                 match pm with [PIdx 0] => true | _ => false end)
+                    | None => true
+                    end) all_bnames = true.
+Proof. vm_compute. reflexivity. Qed.
+
+Lemma reachF_tuple h pm : reachF pytype_devs B_tuple h = Some pm ->
+  head_arity h = 0 \/ (head_arity h = 1 /\ pm = [PIdx 0]).
+Proof.
+  intro H. pose proof reachF_tuple_all as A. rewrite forallb_forall in A.
+  specialize (A h (all_bnames_complete h)). rewrite H in A.
+  apply orb_true_iff in A as [A|A].
+  - left. apply Nat.eqb_eq; assumption.
+  - right. apply andb_true_iff in A as [A1 A2]. apply Nat.eqb_eq in A1. split; [assumption|].
+    destruct pm as [|[[|[|i]]|k|] [|q pm']]; try discriminate. reflexivity.
+Qed.
+
+Section Slice.
+  Variable tb : table.
+  Hypothesis T : tok tb.
+  Let rec := matchm tb.
+  Let inh := inhabitsF pytype_devs tb.
+
+  (* the induction hypothesis for one formal *)
+  Definition agree (a : ty) : Prop :=
+    forall s, is_slice s = true -> wf_val tb s = true -> rec a (abs1 s) = inh a s.
+
+  Lemma rep_str_int k r : pgood (PInst k) = true -> rep k = Some r ->
+    abs1 r = inst0 k /\ is_slice r = true /\ wf_val tb r = true.
+  Proof.
+    destruct k as [[]|]; simpl; try discriminate; intros _ H; inversion H; subst; simpl; auto.
+  Qed.
+
+  Lemma pgood_rep k : pgood (PInst k) = true -> exists r, rep k = Some r.
+  Proof. destruct k as [[]|]; simpl; try discriminate; eauto. Qed.
+
+  Lemma param_agree s a p :
+    agree a -> is_slice s = true -> wf_val tb s = true -> pgood p = true ->
+    (forall vs, s <> VTuple vs) ->
+    match_var rec (resolve (abs1 s) p) a =
+    match p with
+    | PIdx i => forallb (inh a) (vparam s i)
+    | PInst c => match rep c with Some r => inh a r | None => true end
+    | PEmpty => true
+    end.
+  Proof.
+    intros IH Hs Hw Hp Hnt. destruct p as [i|k|].
+    - destruct s as [sc|k vs|vs|ks vs|n|k|m o st]; try (destruct i as [|[|i]]; reflexivity).
+      + (* VColl *)
+        simpl in Hs, Hw. apply andb_true_iff in Hs as [Hl Hs].
+        destruct i as [|[|i]]; try reflexivity.
+        destruct vs as [|e [|e' vs]]; simpl; try reflexivity.
+        * simpl in Hs, Hw. apply andb_true_iff in Hs as [Hs _]. apply andb_true_iff in Hw as [Hw _].
+          rewrite andb_true_r. apply IH; assumption.
+        * simpl in Hl. discriminate.
+      + exfalso. eapply Hnt; reflexivity.
+      + (* VDict *)
+        simpl in Hs, Hw. repeat (apply andb_true_iff in Hs as [Hs ?]).
+        apply andb_true_iff in Hw as [Hw1 Hw2].
+        destruct i as [|[|i]]; try reflexivity.
+        * destruct ks as [|e [|e' ks]]; simpl; try reflexivity.
+          -- simpl in *. rewrite andb_true_r.
+             apply andb_true_iff in H0 as [H0 _]. apply andb_true_iff in Hw1 as [Hw1 _]. apply IH; assumption.
+          -- simpl in Hs. discriminate.
+        * destruct vs as [|e [|e' vs]]; simpl; try reflexivity.
+          -- simpl in *. rewrite andb_true_r.
+             apply andb_true_iff in H as [H _]. apply andb_true_iff in Hw2 as [Hw2 _]. apply IH; assumption.
+          -- simpl in H1. discriminate.
+    - destruct (pgood_rep k Hp) as [r Hr]. rewrite Hr.
+      destruct (rep_str_int k r Hp Hr) as [E [Hs' Hw']].
+      simpl. rewrite <- E. apply IH; assumption.
+    - reflexivity.
+  Qed.
+
+  Lemma lockstep_agree s : is_slice s = true -> wf_val tb s = true -> (forall vs, s <> VTuple vs) ->
+    forall args pm, Forall agree args -> forallb pgood pm = true ->
+    match_params rec (abs1 s) args pm = lockstep pytype_devs inh s args pm.
+  Proof.
+    intros Hs Hw Hnt args. induction args as [|a args IH]; intros pm HF Hp; [destruct pm; reflexivity|].
+    destruct pm as [|p pm]; [reflexivity|].
+    inversion HF; subst. simpl in Hp. apply andb_true_iff in Hp as [Hp1 Hp2].
+    cbn [match_params lockstep].
+    change (match_var rec (resolve (abs1 s) p) a && match_params rec (abs1 s) args pm =
+            match p with
+            | PIdx i => forallb (inh a) (vparam s i)
+            | PInst c => match rep c with Some r => inh a r | None => true end
+            | PEmpty => true
+            end && lockstep pytype_devs inh s args pm).
+    rewrite (param_agree s a p) by assumption. rewrite IH by assumption. reflexivity.
+  Qed.
+End Slice.
+
+(* ------------------------------------------------------------------------------------------------ *)
+(* the matcher on a slice = membership with pytype's deviations *)
+
+Lemma noniter_lists_eq hb :
+  cmem (CB hb) [CB B_t_Iterable; CB B_t_Sequence; CB B_t_Collection; CB B_t_Container]
+  = bmem hb [B_t_Sequence; B_t_Iterable; B_t_Collection; B_t_Container].
+Proof. destruct hb; reflexivity. Qed.
+
+Lemma cmem_str c : cmem (CB c) [CB B_str] = bname_beq c B_str.
+Proof. unfold cmem. simpl. apply orb_false_r. Qed.
+
+Section Main.
+  Variable tb : table.
+  Hypothesis T : tok tb.
+  Let rec := matchm tb.
+  Let inh := inhabitsF pytype_devs tb.
+
+  Lemma sat_noniter s c hb args : bcls s = Some c ->
+    satisfies_noniterable_str tb (CB c) (TCls (CB hb) args)
+    = negb (noniter_str_hit pytype_devs s (TCls (CB hb) args)).
+  Proof.
+    intro Hb. unfold satisfies_noniterable_str, noniter_str_hit.
+    cbn [head d_noniter_str pytype_devs andb].
+    rewrite (tok_noniter tb T), (tok_str tb T), noniter_lists_eq, cmem_str.
+    destruct (bname_beq c B_str) eqn:Ec.
+    - apply bname_beq_eq in Ec. subst c.
+      assert (s = VScalar SStr).
+      { destruct s as [sc|k vs|vs|ks vs|n|k|m o st]; simpl in Hb; inversion Hb.
+        - destruct sc; try discriminate; reflexivity.
+        - destruct k; discriminate. }
+      subst s. rewrite andb_true_r.
+      destruct (bmem hb [B_t_Sequence; B_t_Iterable; B_t_Collection; B_t_Container]); [|destruct args as [|[] ?]; try reflexivity; destruct c as [[]|]; reflexivity].
+      destruct args as [|a args]; [reflexivity|].
+      destruct a as [|ts|[b|n] l|ts|l r|r]; cbn [first_arg_cls]; rewrite ?(tok_str tb T); try reflexivity.
+      + rewrite cmem_str. destruct b; reflexivity.
+    - rewrite andb_false_r.
+      destruct s as [sc|k vs|vs|ks vs|n|k|m o st]; try reflexivity.
+      destruct sc; try reflexivity. simpl in Hb. inversion Hb; subst. simpl in Ec. discriminate.
+  Qed.
+
+  Lemma inh_cls_binst s c hb args : bcls s = Some c ->
+    inh (TCls (CB hb) args) s =
+    if bname_beq hb B_object then true
+    else if noniter_str_hit pytype_devs s (TCls (CB hb) args) then false
+    else match reachF pytype_devs c hb with
+         | Some pm => lockstep pytype_devs inh s args pm
+         | None => false
+         end.
+  Proof.
+    intro Hb. unfold inh. cbn [inhabitsF].
+    destruct (bname_beq hb B_object); [reflexivity|].
+    destruct s; simpl in Hb; inversion Hb; subst; reflexivity.
+  Qed.
+
+  Lemma none_case_binst m c hb :
+    In c vclasses -> In hb heads -> cls_of tb m = CB c -> attrs_of tb m = attrs tb (CB c) ->
+    reach tb (CB c) (CB hb) = None ->
+    (if is_protocol tb (CB hb) then protocol_match tb m (CB hb) else has_protocol_base tb (CB hb)) = false.
+  Proof.
+    intros Hc Hh Ecls Eattrs Hr.
+    destruct (is_protocol tb (CB hb)) eqn:Ep.
+    - pose proof (tok_fallback tb T c hb Hc Hh Hr Ep) as F.
+      unfold protocol_match in *. rewrite Ecls, Eattrs. simpl in F. exact F.
+    - rewrite <- (tok_proto_base tb T hb Hh). assumption.
+  Qed.
+
+  Lemma base_match_inst c o1 o2 pm h args :
+    base_match rec (MInst c o1 o2) pm (TCls h args) = match_params rec (MInst c o1 o2) args pm.
+  Proof. reflexivity. Qed.
+
+  Lemma abs1_binst_shape s c : bcls s = Some c ->
+    (exists vs, s = VTuple vs) \/ (exists o1 o2, abs1 s = MInst (CB c) o1 o2 /\ forall vs, s <> VTuple vs).
+  Proof.
+    destruct s; simpl; intro H; inversion H; subst; try (right; eexists; eexists; split; [reflexivity|intros; discriminate]).
+    left. eauto.
+  Qed.
+
+  Lemma wf_args_len (hb : bname) (args : list ty) :
+    (match args with [] => true | _ => Nat.eqb (length args) (head_arity hb) end) = true ->
+    args = [] \/ length args = head_arity hb.
+  Proof. destruct args; [auto|]. intro H. right. apply Nat.eqb_eq; assumption. Qed.
+
+  Lemma cls_binst s c hb args :
+    bcls s = Some c -> In hb heads ->
+    (args = [] \/ length args = head_arity hb) ->
+    Forall (agree tb) args -> is_slice s = true -> wf_val tb s = true ->
+    rec (TCls (CB hb) args) (abs1 s) = inh (TCls (CB hb) args) s.
+  Proof.
+    intros Hb Hh Hlen HF Hs Hw.
+    pose proof (bcls_vclasses s c Hb) as Hc.
+    destruct (bcls_cls_of tb s c Hb) as [Ecls Evc].
+    assert (L : rec (TCls (CB hb) args) (abs1 s) = instance_match tb rec (abs1 s) (TCls (CB hb) args)).
+    { destruct s; simpl in Hb; inversion Hb; reflexivity. }
+    rewrite L, instance_match_reach, Ecls. cbn [head].
+    rewrite (sat_noniter s c hb args Hb), negb_involutive.
+    rewrite (tok_reach tb T c hb Hc Hh).
+    rewrite (inh_cls_binst s c hb args Hb).
+    assert (Hobj : bname_beq hb B_object = true -> noniter_str_hit pytype_devs s (TCls (CB hb) args) = false
+                   /\ reachF pytype_devs c hb = Some [] /\ args = []).
+    { intro E. apply bname_beq_eq in E. subst hb. repeat split.
+      - unfold noniter_str_hit. destruct s as [[]| | | | | |]; try reflexivity. destruct args as [|[|?|[[]|] ?|?|? ?|?] ?]; reflexivity.
+      - destruct c; reflexivity.
+      - destruct Hlen as [E|E]; [assumption|]. simpl in E. destruct args; [reflexivity|discriminate]. }
+    destruct (noniter_str_hit pytype_devs s (TCls (CB hb) args)) eqn:Ehit.
+    { destruct (bname_beq hb B_object) eqn:Eo; [|reflexivity].
+      destruct (Hobj eq_refl) as [X _]. discriminate. }
+    destruct (reachF pytype_devs c hb) as [pm|] eqn:Er.
+    - pose proof (reachF_pgood c hb pm Er) as Hpg.
+      assert (G : base_match rec (abs1 s) pm (TCls (CB hb) args) = lockstep pytype_devs inh s args pm).
+      { destruct (abs1_binst_shape s c Hb) as [[vs E]|[o1 [o2 [E Hnt]]]].
+        - subst s. simpl in Hb. inversion Hb; subst c. cbn [abs1].
+          destruct args as [|a rest]; [destruct pm; reflexivity|].
+          destruct (reachF_tuple hb pm Er) as [A0|[A1 Epm]].
+          + destruct Hlen as [E|E]; [discriminate|]. rewrite A0 in E. discriminate.
+          + destruct Hlen as [E|E]; [discriminate|]. rewrite A1 in E. destruct rest; [|discriminate].
+            subst pm. cbn [base_match lockstep vparam]. rewrite andb_true_r, forallb_map.
+            inversion HF; subst. simpl in Hs, Hw.
+            apply forallb_ext_Forall. apply Forall_forall. intros e He.
+            rewrite forallb_forall in Hs, Hw. apply H1; auto.
+        - rewrite E, base_match_inst, <- E. apply lockstep_agree; assumption. }
+      rewrite G. destruct (bname_beq hb B_object) eqn:Eo; [|reflexivity].
+      destruct (Hobj eq_refl) as [_ [E1 E2]]. inversion E1; subst. reflexivity.
+    - rewrite (none_case_binst (abs1 s) c hb Hc Hh Ecls (bcls_attrs_of tb s c Hb)).
+      + destruct (bname_beq hb B_object) eqn:Eo; [|reflexivity].
+        destruct (Hobj eq_refl) as [_ [E1 _]]. discriminate.
+      + rewrite (tok_reach tb T c hb Hc Hh). assumption.
+  Qed.
+End Main.
+
+(* computed facts about the run-time table *)
+Lemma reachF_type_all :
+  forallb (fun h => match reachF pytype_devs B_type h with
+                    | Some _ => bname_beq h B_object || bname_beq h B_type || bname_beq h B_t_Callable
+                    | None => true end) all_bnames = true.
+Proof. vm_compute. reflexivity. Qed.
+
+Lemma reachF_callable_all :
+  forallb (fun h => match reachF pytype_devs B_t_Callable h with
+                    | Some _ => bname_beq h B_object || bname_beq h B_t_Callable
+                    | None => true end) all_bnames = true.
+Proof. vm_compute. reflexivity. Qed.
+
+Lemma reachF_to_tuple_all :
+  forallb (fun c => match reachF pytype_devs c B_tuple with
+                    | Some pm => bname_beq c B_tuple && match pm with [PIdx 0] => true | _ => false end
+                    | None => true end) all_bnames = true.
+Proof. vm_compute. reflexivity. Qed.
+
+Lemma reachF_to_callable_all :
+  forallb (fun c => match reachF pytype_devs c B_t_Callable with
+                    | Some _ => bname_beq c B_type || bname_beq c B_t_Callable
+                    | None => true end) all_bnames = true.
+Proof. vm_compute. reflexivity. Qed.
+
+Lemma reachF_type hb : bname_beq hb B_object = false -> bname_beq hb B_type = false ->
+  bname_beq hb B_t_Callable = false -> reachF pytype_devs B_type hb = None.
+Proof.
+  intros E1 E2 E3. pose proof reachF_type_all as A. rewrite forallb_forall in A.
+  specialize (A hb (all_bnames_complete hb)). destruct (reachF pytype_devs B_type hb); [|reflexivity].
+  rewrite E1, E2, E3 in A. discriminate.
+Qed.
+
+Lemma reachF_callable hb : bname_beq hb B_object = false -> bname_beq hb B_t_Callable = false ->
+  reachF pytype_devs B_t_Callable hb = None.
+Proof.
+  intros E1 E3. pose proof reachF_callable_all as A. rewrite forallb_forall in A.
+  specialize (A hb (all_bnames_complete hb)). destruct (reachF pytype_devs B_t_Callable hb); [|reflexivity].
+  rewrite E1, E3 in A. discriminate.
+Qed.
+
+Lemma reachF_to_tuple c : bname_beq c B_tuple = false -> reachF pytype_devs c B_tuple = None.
+Proof.
+  intros E. pose proof reachF_to_tuple_all as A. rewrite forallb_forall in A.
+  specialize (A c (all_bnames_complete c)). destruct (reachF pytype_devs c B_tuple); [|reflexivity].
+  rewrite E in A. discriminate.
+Qed.
+
+Lemma reachF_to_callable c : bname_beq c B_type = false -> bname_beq c B_t_Callable = false ->
+  reachF pytype_devs c B_t_Callable = None.
+Proof.
+  intros E1 E2. pose proof reachF_to_callable_all as A. rewrite forallb_forall in A.
+  specialize (A c (all_bnames_complete c)). destruct (reachF pytype_devs c B_t_Callable); [|reflexivity].
+  rewrite E1, E2 in A. discriminate.
+Qed.
+
+Lemma forall2b_agree {A B} (f : ty -> A -> bool) (g : ty -> B -> bool) (h : B -> A) ts :
+  forall l, Forall (fun a => forall x, In x l -> f a (h x) = g a x) ts ->
+  forall2b f ts (map h l) = forall2b g ts l.
+Proof.
+  induction ts as [|a ts IH]; intros l HF; destruct l as [|x l]; try reflexivity.
+  inversion HF; subst. cbn [map forall2b]. f_equal.
+  - apply H1. left; reflexivity.
+  - apply IH. eapply Forall_impl; [|exact H2]. intros a' Ha x' Hx'. apply Ha. right; assumption.
+Qed.
+
+Section Main2.
+  Variable tb : table.
+  Hypothesis T : tok tb.
+  Let rec := matchm tb.
+  Let inh := inhabitsF pytype_devs tb.
+
+  Lemma sat_nonstr c t : bname_beq c B_str = false -> satisfies_noniterable_str tb (CB c) t = true.
+  Proof.
+    intro E. unfold satisfies_noniterable_str. rewrite (tok_str tb T), cmem_str, E, andb_false_r. reflexivity.
+  Qed.
+
+  Lemma sat_user c t : satisfies_noniterable_str tb (CU c) t = true.
+  Proof.
+    unfold satisfies_noniterable_str. rewrite (tok_str tb T). cbn [cmem existsb cid_eqb orb].
+    rewrite andb_false_r. reflexivity.
+  Qed.
+
+  Lemma sat_head t : cmem (head t) [CB B_t_Iterable; CB B_t_Sequence; CB B_t_Collection; CB B_t_Container] = false ->
+    forall c, satisfies_noniterable_str tb c t = true.
+  Proof. intros E c. unfold satisfies_noniterable_str. rewrite (tok_noniter tb T), E. reflexivity. Qed.
+
+  Lemma inst_match_none m c hb t :
+    head t = CB hb -> In c vclasses -> In hb heads -> cls_of tb m = CB c -> attrs_of tb m = attrs tb (CB c) ->
+    reachF pytype_devs c hb = None -> instance_match tb rec m t = false.
+  Proof.
+    intros Hh Hc Hhb Ecls Eattrs Hr. rewrite instance_match_reach.
+    destruct (negb (satisfies_noniterable_str tb (cls_of tb m) t)); [reflexivity|].
+    rewrite Ecls, Hh, (tok_reach tb T c hb Hc Hhb), Hr.
+    apply (none_case_binst tb T m c hb); try assumption.
+    rewrite (tok_reach tb T c hb Hc Hhb). assumption.
+  Qed.
+
+  (* a formal that is a generated class, against a value that is not one of its instances/class objects *)
+  Lemma inst_match_user m c p args have :
+    In c vclasses -> cls_of tb m = CB c ->
+    (forall n, amem (AU n) (attrs_of tb m) = nmem n have) ->
+    instance_match tb rec m (TCls (CU p) args) = structural tb p have.
+  Proof.
+    intros Hc Ecls Hattrs. rewrite instance_match_reach.
+    rewrite (sat_head (TCls (CU p) args) eq_refl). cbn [negb head].
+    rewrite Ecls, (reach_builtin_user tb c p T Hc).
+    apply user_fallback. assumption.
+  Qed.
+
+  Lemma AU_not_in_builtin c n : In c vclasses -> amem (AU n) (attrs tb (CB c)) = false.
+  Proof. intro Hc. apply amem_AU_allAB. apply (tok_ab tb T c). right; assumption. Qed.
+
+  (* ---------- builtin-instance values against the remaining formals ---------- *)
+  Lemma matchm_binst s c t : bcls s = Some c ->
+    match t with TAny | TUnion _ => False | _ => True end ->
+    rec t (abs1 s) = instance_match tb rec (abs1 s) t.
+  Proof. destruct s; simpl; intro H; inversion H; destruct t; simpl; tauto. Qed.
+
+  Lemma cu_binst s c p args : bcls s = Some c -> rec (TCls (CU p) args) (abs1 s) = inh (TCls (CU p) args) s.
+  Proof.
+    intro Hb. rewrite (matchm_binst s c (TCls (CU p) args) Hb I).
+    destruct (bcls_cls_of tb s c Hb) as [Ecls _].
+    rewrite (inst_match_user (abs1 s) c p args [] (bcls_vclasses s c Hb) Ecls).
+    - destruct s; simpl in Hb; inversion Hb; reflexivity.
+    - intro n. rewrite (bcls_attrs_of tb s c Hb). apply AU_not_in_builtin. eapply bcls_vclasses; eassumption.
+  Qed.
+
+  Lemma tuple_in_heads : In B_tuple heads. Proof. simpl; tauto. Qed.
+  Lemma callable_in_heads : In B_t_Callable heads. Proof. simpl; tauto. Qed.
+
+  Lemma ttuple_binst s c ts : bcls s = Some c -> Forall (agree tb) ts ->
+    is_slice s = true -> wf_val tb s = true ->
+    rec (TTuple ts) (abs1 s) = inh (TTuple ts) s.
+  Proof.
+    intros Hb HF Hs Hw. rewrite (matchm_binst s c (TTuple ts) Hb I).
+    pose proof (bcls_vclasses s c Hb) as Hc.
+    destruct (bcls_cls_of tb s c Hb) as [Ecls _].
+    destruct (bname_beq c B_tuple) eqn:Ec.
+    - apply bname_beq_eq in Ec. subst c.
+      rewrite instance_match_reach. rewrite (sat_head (TTuple ts) eq_refl). cbn [negb head].
+      rewrite Ecls, (tok_reach tb T B_tuple B_tuple Hc tuple_in_heads).
+      change (reachF pytype_devs B_tuple B_tuple) with (Some [PIdx 0]).
+      destruct s as [sc|k vs|vs|ks vs|n|k|m o st]; simpl in Hb; inversion Hb.
+      + destruct sc; discriminate.
+      + destruct k; try discriminate. cbn [abs1 ckind_cls base_match].
+        unfold inh. cbn [inhabitsF d_tuplecall_len pytype_devs].
+        apply forallb_ext_Forall. eapply Forall_impl; [|exact HF]. intros a Ha.
+        change (match_var rec (resolve (abs1 (VColl KTupleOf vs)) (PIdx 0)) a = forallb (inh a) (vparam (VColl KTupleOf vs) 0)).
+        apply (param_agree tb (VColl KTupleOf vs) a (PIdx 0)); auto. intros; discriminate.
+      + cbn [abs1 base_match]. unfold inh. cbn [inhabitsF]. apply forall2b_agree.
+        eapply Forall_impl; [|exact HF]. intros a Ha x Hx. simpl in Hs, Hw.
+        rewrite forallb_forall in Hs, Hw. apply Ha; auto.
+    - rewrite (inst_match_none (abs1 s) c B_tuple (TTuple ts) eq_refl Hc tuple_in_heads Ecls
+                 (bcls_attrs_of tb s c Hb) (reachF_to_tuple c Ec)).
+      destruct s as [sc|k vs|vs|ks vs|n|k|m o st]; simpl in Hb; inversion Hb; subst; try reflexivity.
+      + destruct k; try reflexivity. simpl in Ec. discriminate.
+      + simpl in Ec. discriminate.
+  Qed.
+
+  Lemma binst_not_type_callable s c : bcls s = Some c ->
+    bname_beq c B_type = false /\ bname_beq c B_t_Callable = false.
+  Proof.
+    destruct s as [sc|k vs|vs|ks vs|n|k|m o st]; simpl; intro H; inversion H; subst.
+    - destruct sc; auto.
+    - destruct k; auto.
+    - auto.
+    - auto.
+  Qed.
+
+  Lemma callable_binst s c t : bcls s = Some c ->
+    (exists args ret, t = TCallable args ret) \/ (exists ret, t = TCallableAny ret) ->
+    rec t (abs1 s) = inh t s.
+  Proof.
+    intros Hb Ht.
+    assert (Hh : head t = CB B_t_Callable) by (destruct Ht as [[a [r E]]|[r E]]; subst; reflexivity).
+    assert (Hn : match t with TAny | TUnion _ => False | _ => True end)
+      by (destruct Ht as [[a [r E]]|[r E]]; subst; exact I).
+    rewrite (matchm_binst s c t Hb Hn).
+    destruct (bcls_cls_of tb s c Hb) as [Ecls _].
+    destruct (binst_not_type_callable s c Hb) as [E1 E2].
+    rewrite (inst_match_none (abs1 s) c B_t_Callable t Hh (bcls_vclasses s c Hb) callable_in_heads Ecls
+               (bcls_attrs_of tb s c Hb) (reachF_to_callable c E1 E2)).
+    destruct Ht as [[a [r E]]|[r E]]; subst; destruct s; simpl in Hb; inversion Hb; reflexivity.
+  Qed.
+End Main2.
+
+Lemma wf_ty_cls_cb tb hb args : wf_ty tb (TCls (CB hb) args) = true ->
+  In hb heads /\ (args = [] \/ length args = head_arity hb) /\ forallb (wf_ty tb) args = true.
+Proof.
+  intro H.
+  change (bmem hb heads && (match args with [] => true | _ => Nat.eqb (length args) (head_arity hb) end)
+          && forallb (wf_ty tb) args = true) in H.
+  apply andb_true_iff in H as [H H3]. apply andb_true_iff in H as [H1 H2].
+  apply bmem_In in H1. repeat split; try assumption.
+  destruct args; [auto|]. right. apply Nat.eqb_eq. assumption.
+Qed.
+
+Section Main3.
+  Variable tb : table.
+  Hypothesis T : tok tb.
+  Let rec := matchm tb.
+  Let inh := inhabitsF pytype_devs tb.
+
+  (* ---------- instances of generated classes ---------- *)
+  Lemma no_mapping_in_user_mro c :
+    existsb (fun e => cid_eqb (fst e) (CB B_t_Mapping)) (mro tb (CU c)) = false.
+  Proof.
+    unfold mro. rewrite existsb_app. cbn [existsb fst cid_eqb orb].
+    replace (bname_beq B_object B_t_Mapping) with false by reflexivity. rewrite orb_false_r.
+    rewrite existsb_map. cbn [fst cid_eqb]. induction (u_mro (uinfo_of tb c)); simpl; auto.
+  Qed.
+
+  Lemma vinst_builtin_head c t hb :
+    head t = CB hb -> In hb heads -> bname_beq hb B_object = false ->
+    instance_match tb rec (MInst (CU c) None None) t = false.
+  Proof.
+    intros Hh Hhb Eo. rewrite instance_match_reach. cbn [cls_of]. rewrite sat_user by assumption. cbn [negb].
+    rewrite Hh, reach_user by assumption. rewrite Eo.
+    destruct (is_protocol tb (CB hb)) eqn:Ep.
+    - unfold protocol_match. cbn [cls_of]. rewrite no_mapping_in_user_mro, andb_false_r.
+      destruct (tok_attr_obj tb T hb Hhb Ep) as [a [Ha Hm]].
+      apply (asubset_has_missing _ _ (AB a) Ha). cbn [attrs_of cls_of].
+      rewrite amem_AB_attrs_user; assumption.
+    - rewrite <- (tok_proto_base tb T hb Hhb). assumption.
+  Qed.
+
+  Lemma vinst_user_head c p args :
+    instance_match tb rec (MInst (CU c) None None) (TCls (CU p) args) = inh (TCls (CU p) args) (VInst c).
+  Proof.
+    rewrite instance_match_reach. cbn [cls_of head]. rewrite sat_user by assumption. cbn [negb].
+    rewrite reach_user by assumption. unfold inh. cbn [inhabitsF user_member].
+    destruct (nmem p (u_mro (uinfo_of tb c))); cbn [orb].
+    - cbn [base_match]. destruct args; reflexivity.
+    - apply user_fallback. intro n. cbn [attrs_of cls_of]. apply amem_AU_attrs_user; assumption.
+  Qed.
+
+  Lemma vinst_all c t : wf_ty tb t = true ->
+    match t with TAny | TUnion _ => False | _ => True end ->
+    rec t (MInst (CU c) None None) = inh t (VInst c).
+  Proof.
+    intros Hwf Hn.
+    assert (L : rec t (MInst (CU c) None None) = instance_match tb rec (MInst (CU c) None None) t)
+      by (destruct t; simpl in Hn; try tauto; reflexivity).
+    rewrite L. destruct t as [|ts|[hb|p] args|ts|args ret|ret]; try tauto.
+    - apply wf_ty_cls_cb in Hwf as [Hh [Hlen _]]. unfold inh. cbn [inhabitsF].
+      destruct (bname_beq hb B_object) eqn:Eo.
+      + apply bname_beq_eq in Eo. subst hb.
+        rewrite instance_match_reach. cbn [cls_of head]. rewrite sat_user by assumption. cbn [negb].
+        rewrite reach_user by assumption. cbn [bname_beq base_match]. destruct args; reflexivity.
+      + apply (vinst_builtin_head c (TCls (CB hb) args) hb eq_refl Hh Eo).
+    - apply vinst_user_head.
+    - apply (vinst_builtin_head c (TTuple ts) B_tuple eq_refl); [simpl; tauto | reflexivity].
+    - apply (vinst_builtin_head c (TCallable args ret) B_t_Callable eq_refl); [simpl; tauto | reflexivity].
+    - apply (vinst_builtin_head c (TCallableAny ret) B_t_Callable eq_refl); [simpl; tauto | reflexivity].
+  Qed.
+
+  (* ---------- class objects ---------- *)
+  Lemma accept_mem hb :
+    cmem (CB hb) (bt_class_accept (t_b tb)) =
+    bname_beq hb B_type || bname_beq hb B_object || bname_beq hb B_t_Callable || bname_beq hb B_t_Hashable.
+  Proof. rewrite (tok_accept tb T). unfold cmem. cbn [existsb cid_eqb]. rewrite orb_false_r, !orb_assoc. reflexivity. Qed.
+
+  Lemma accept_user p : cmem (CU p) (bt_class_accept (t_b tb)) = false.
+  Proof. rewrite (tok_accept tb T). reflexivity. Qed.
+
+  Definition class_have (k : cid) : list nat :=
+    match k with CU n => u_own (uinfo_of tb n) | CB _ => [] end.
+
+  Lemma classobj_attrs_AU k n : amem (AU n) (attrs_of tb (MClass k)) = nmem n (class_have k).
+  Proof.
+    assert (Ht : In B_type vclasses) by (simpl; tauto).
+    destruct k as [b|m]; cbn [attrs_of cls_of class_have].
+    - apply AU_not_in_builtin; assumption.
+    - rewrite amem_app. cbn [own_attrs]. rewrite amem_map_AU, (AU_not_in_builtin tb T B_type n Ht), orb_false_r.
+      reflexivity.
+  Qed.
+
+  Lemma classobj_builtin_head k t hb :
+    head t = CB hb -> In hb heads ->
+    bname_beq hb B_object = false -> bname_beq hb B_type = false -> bname_beq hb B_t_Callable = false ->
+    instance_match tb rec (MClass k) t = false.
+  Proof.
+    intros Hh Hhb E1 E2 E3.
+    assert (Ht : In B_type vclasses) by (simpl; tauto).
+    rewrite instance_match_reach. cbn [cls_of].
+    rewrite (sat_nonstr tb T B_type t eq_refl). cbn [negb].
+    rewrite Hh, (tok_reach tb T B_type hb Ht Hhb), (reachF_type hb E1 E2 E3).
+    destruct (is_protocol tb (CB hb)) eqn:Ep.
+    - unfold protocol_match.
+      destruct (cid_eqb (CB hb) (CB B_t_Sequence) && _); [reflexivity|].
+      assert (Hacc : cmem (CB hb) (bt_class_accept (t_b tb)) = false).
+      { rewrite accept_mem, E1, E2, E3. cbn [orb].
+        destruct (bname_beq hb B_t_Hashable) eqn:EH; [|reflexivity].
+        apply bname_beq_eq in EH. subst hb. simpl in Hhb. repeat (destruct Hhb as [X|Hhb]; [discriminate|]). contradiction. }
+      destruct (tok_attr_type tb T hb Hhb Ep Hacc) as [a [Ha Hm]].
+      apply (asubset_has_missing _ _ (AB a) Ha).
+      destruct k as [b|m]; cbn [attrs_of cls_of]; [assumption|].
+      rewrite amem_app. cbn [own_attrs]. rewrite amem_AB_map_AU. assumption.
+    - rewrite <- (tok_proto_base tb T hb Hhb). assumption.
+  Qed.
+
+  Lemma classobj_user_head k p args :
+    instance_match tb rec (MClass k) (TCls (CU p) args) = inh (TCls (CU p) args) (VClass k).
+  Proof.
+    assert (Ht : In B_type vclasses) by (simpl; tauto).
+    rewrite (inst_match_user tb T (MClass k) B_type p args (class_have k) Ht eq_refl (classobj_attrs_AU k)).
+    destruct k; reflexivity.
+  Qed.
+
+  Lemma rep_props k r : rep k = Some r -> wf_val tb (VClass k) = true ->
+    abs1 r = inst0 k /\ is_slice r = true /\ wf_val tb r = true.
+  Proof.
+    destruct k as [[]|n]; simpl; intros H Hw; inversion H; subst; simpl; auto.
+  Qed.
+
+  Lemma wf_class_rep k : wf_val tb (VClass k) = true -> exists r, rep k = Some r.
+  Proof.
+    destruct k as [b|n]; simpl; intro H; [|eauto].
+    destruct (rep (CB b)); [eauto|discriminate].
+  Qed.
+
+  Lemma vclass_all k t : wf_ty tb t = true -> wf_val tb (VClass k) = true ->
+    match t with TAny | TUnion _ => False | _ => True end ->
+    (forall u, match t with
+               | TCls (CB B_type) (u' :: _) => u = u'
+               | TCallable _ r | TCallableAny r => u = r
+               | _ => False end -> agree tb u) ->
+    rec t (MClass k) = inh t (VClass k).
+  Proof.
+    intros Hwf Hw Hn IH.
+    destruct (wf_class_rep k Hw) as [r Hr]. destruct (rep_props k r Hr Hw) as [Er [Hsr Hwr]].
+    destruct t as [|ts|[hb|p] args|ts|args ret|ret]; try tauto.
+    - apply wf_ty_cls_cb in Hwf as [Hh [Hlen _]]. unfold inh. cbn [inhabitsF].
+      destruct (bname_beq hb B_object) eqn:Eo.
+      { apply bname_beq_eq in Eo. subst hb. unfold rec. cbn [matchm cid_eqb]. rewrite accept_mem. cbn.
+        destruct args; reflexivity. }
+      destruct (bname_beq hb B_type) eqn:Et.
+      { apply bname_beq_eq in Et. subst hb. unfold rec. cbn [matchm cid_eqb]. rewrite accept_mem.
+        destruct args as [|u args]; [reflexivity|]. cbn [bname_beq]. rewrite Hr, <- Er.
+        apply (IH u eq_refl); assumption. }
+      destruct (bname_beq hb B_t_Callable) eqn:Ec.
+      { apply bname_beq_eq in Ec. subst hb. unfold rec. cbn [matchm cid_eqb]. rewrite accept_mem. cbn.
+        destruct args; reflexivity. }
+      assert (Hacc : cmem (CB hb) (bt_class_accept (t_b tb)) = false).
+      { rewrite accept_mem, Eo, Et, Ec. cbn [orb].
+        destruct (bname_beq hb B_t_Hashable) eqn:EH; [|reflexivity].
+        apply bname_beq_eq in EH. subst hb. simpl in Hh. repeat (destruct Hh as [X|Hh]; [discriminate|]). contradiction. }
+      assert (L : rec (TCls (CB hb) args) (MClass k) = instance_match tb rec (MClass k) (TCls (CB hb) args)).
+      { unfold rec. cbn [matchm cid_eqb]. rewrite Et, Hacc. destruct args; reflexivity. }
+      rewrite L. apply (classobj_builtin_head k (TCls (CB hb) args) hb eq_refl Hh Eo Et Ec).
+    - assert (L : rec (TCls (CU p) args) (MClass k) = instance_match tb rec (MClass k) (TCls (CU p) args)).
+      { unfold rec. cbn [matchm cid_eqb]. rewrite accept_user. destruct args; reflexivity. }
+      rewrite L. apply classobj_user_head.
+    - change (rec (TTuple ts) (MClass k)) with (instance_match tb rec (MClass k) (TTuple ts)).
+      apply (classobj_builtin_head k (TTuple ts) B_tuple eq_refl); [simpl; tauto | reflexivity | reflexivity | reflexivity].
+    - unfold rec, inh. cbn [matchm inhabitsF d_class_callable_args pytype_devs orb andb]. rewrite Hr, <- Er.
+      apply (IH ret eq_refl); assumption.
+    - unfold rec, inh. cbn [matchm inhabitsF]. rewrite Hr, <- Er. apply (IH ret eq_refl); assumption.
+  Qed.
+
+  (* ---------- functions ---------- *)
+  Lemma vfunc_all m o st t : wf_ty tb t = true ->
+    match t with TAny | TUnion _ => False | _ => True end ->
+    rec t (MFunc m o st) = inh t (VFunc m o st).
+  Proof.
+    intros Hwf Hn.
+    assert (Hc : In B_t_Callable vclasses) by (simpl; tauto).
+    assert (Eft := tok_ft tb T).
+    destruct t as [|ts|[hb|p] args|ts|args ret|ret]; try tauto.
+    - apply wf_ty_cls_cb in Hwf as [Hh [Hlen _]]. unfold rec, inh. cbn [matchm inhabitsF cid_eqb].
+      destruct (bname_beq hb B_object) eqn:Eo; [reflexivity|].
+      destruct (bname_beq hb B_t_Callable) eqn:Ec; [reflexivity|]. cbn [orb].
+      rewrite Eft.
+      apply (inst_match_none tb T (inst0 (CB B_t_Callable)) B_t_Callable hb (TCls (CB hb) args) eq_refl Hc Hh eq_refl eq_refl
+               (reachF_callable hb Eo Ec)).
+    - unfold rec, inh. cbn [matchm inhabitsF cid_eqb orb]. rewrite Eft.
+      rewrite (inst_match_user tb T (inst0 (CB B_t_Callable)) B_t_Callable p args [] Hc eq_refl).
+      + reflexivity.
+      + intro n. cbn [attrs_of inst0 cls_of]. apply AU_not_in_builtin; assumption.
+    - unfold rec, inh. cbn [matchm inhabitsF]. rewrite Eft.
+      apply (inst_match_none tb T (inst0 (CB B_t_Callable)) B_t_Callable B_tuple (TTuple ts) eq_refl Hc); try reflexivity.
+      simpl; tauto.
+    - reflexivity.
+    - reflexivity.
+  Qed.
+End Main3.
